@@ -34,7 +34,9 @@ LineOK(e) ==
       outOK == e.out = "na" \/ e.out = o
   IN  (* IF, not a disjunction: TLC would try every disjunct of an action and print for each *)
       IF vecOK /\ outOK THEN TRUE
-      ELSE PrintT(<<"LINE_MISMATCH", e.id, e.sys, "vector entries", bad, "model", o, "real", e.out>>) /\ FALSE
+      ELSE /\ PrintT(<<"LINE_MISMATCH", e.id, e.sys, o, e.out>>)      \* line, system, outcome by the model, real outcome
+           /\ PrintT(<<"LINE_MISMATCH_VEC", e.id, bad>>)              \* the guards / equations valued differently
+           /\ FALSE
 
 TraceInit == l = 1
 TraceNext == l <= Len(TraceLog) /\ LineOK(TraceLog[l]) /\ l' = l + 1
